@@ -459,6 +459,31 @@ class ElectricFieldScale(Contract):
         sev = st.scal.get(ps.name + '._axis[1]._scale[ElectronVolt]')
         st.assume(args['revolutionpart'].t != 0)
         ex.oblig(st, 'volts_factor', vol.t * args['revolutionpart'].t == (d1.t * sev.t if d1 is not None and sev is not None else -1), 'postcondition', {'C10'})
+        # ---- radiated-power factors attached to /CSR/Spectrum (W/Hz) and /CSR/Intensity (W), and the frequency step in hertz
+        for need in ('factor4WattPerHertz', 'factor4Watts', '_axis_freq'):
+            if need not in inits:
+                raise ExtractionError(f'ElectricField constructor: member initialiser {need} not found')
+        from vf.models import find_string_literal, real
+        hz = None
+        for pr in _walk(inits['_axis_freq']):
+            if pr.get('kind') == 'CXXConstructExpr' and 'std::pair<' in pr.get('type', {}).get('qualType', '') and len(pr.get('inner', [])) == 2 and find_string_literal(pr['inner'][0]) == 'Hertz':
+                hz = ex.ev(pr['inner'][1], st)
+        if hz is None:
+            raise ExtractionError('ElectricField constructor: the frequency ruler is not built with a "Hertz" scale')
+        sm0 = st.scal.get(ps.name + '._axis[0]._scale[Meter]')
+        cc_ = models.CONST_GLOBALS['vfps::physcons::c']
+        st.assume(z3.And(args['f_rev'].t != 0, sm0.t != 0) if sm0 is not None else z3.BoolVal(True))
+        ex.oblig(st, 'hertz_per_frequency_step', real(hz) * (sm0.t if sm0 is not None else 0) == Rq(cc_.numerator, cc_.denominator), 'postcondition', {'C10', 'C07'},
+                 'scale("Hertz") of the frequency ruler = c / (metres per natural bunch length)')
+        wph = ex.ev(inits['factor4WattPerHertz']['inner'][0], st)
+        ohm = st.scal.get(imp.name + '.factor4Ohms')
+        cur = st.scal.get(ps.name + '.current')
+        ex.oblig(st, 'watt_per_hertz_factor', real(wph) * args['f_rev'].t == (2 * ohm.t * cur.t * cur.t if ohm is not None and cur is not None else -1), 'postcondition', {'C10', 'C07'},
+                 '2 * Z0-factor of the impedance * I^2 / f_rev')
+        st.scal['this.factor4WattPerHertz'] = RealV(real(wph), parse_type_str('double'))
+        st.scal['this._axis_freq._scale[Hertz]'] = RealV(real(hz), parse_type_str('double'))
+        wat = ex.ev(inits['factor4Watts']['inner'][0], st)
+        ex.oblig(st, 'watt_factor', real(wat) == real(wph) * real(hz), 'postcondition', {'C10', 'C07'}, 'W/Hz factor times hertz per frequency step')
         ex.oblig(st, 'canary', z3.BoolVal(False), 'canary', set())
         # ---- delegating constructor: the scale argument handed to the 8-parameter one
         ex2 = Exec(tu, deleg[0], 'ElectricField::ElectricField(delegating)')
